@@ -205,6 +205,22 @@ def check_resample(pre, post, ne, flag, an=None):
                     degree=len(post_nbr.get(v, [])))
                 break
 
+    # G3f a mesh edge joins two different points; and (no cascade) there is exactly one mesh edge per
+    # pair of consecutive kept points - nothing left over from a contraction
+    for eid, (a, b) in post["e"].items():
+        if a == b:
+            add("G3", "mesh edge joins a point to itself", edge=eid, vertex=a)
+    if not cascade_v and not any(o["inv"] == "G3" for o in out):
+        expected = 0
+        for p in an["interfaces"]:
+            if tuple(p) in Kset and (p[0] in subst or p[1] in subst):
+                continue   # contracted to one vertex: no edge left
+            kept = sum(1 for i, v in enumerate(p) if v in same or ((i == 0 or i == len(p) - 1) and v in subst))
+            expected += max(0, kept - 1)
+        if expected != len(post["e"]):
+            add("G3", "number of mesh edges differs from the number of consecutive kept point pairs",
+                edges=len(post["e"]), expected=expected)
+
     # G3e no foreign edges between old vertices
     if not cascade_v:
         on_if = set()
